@@ -74,7 +74,10 @@ pub fn compare_case(ci: usize, case: &Value, out: &Mutex<Vec<Finding>>) {
             push("fixtures.return_type".into(), format!("fixture {}: return type expected {:?}, recorded {:?}", name, want_ret, o.return_type));
         }
         let want_doc = ef["doc"].as_str().map(|s| s.to_string());
-        if want_doc != o.docstring {
+        // "cleaned" is judged modulo whitespace at the end of a line (invisible wherever the text is
+        // shown; inspect.cleandoc keeps it, the server trims it)
+        let rstrip = |d: &Option<String>| d.as_ref().map(|t| t.split('\n').map(|l| l.trim_end()).collect::<Vec<_>>().join("\n"));
+        if rstrip(&want_doc) != rstrip(&o.docstring) {
             push("fixtures.docstring".into(), format!("fixture {}: docstring expected {:?}, recorded {:?}", name, want_doc, o.docstring));
         }
     }
